@@ -3,6 +3,7 @@ package checks
 import (
 	"encoding/json"
 	"fmt"
+	"net/http"
 	"os"
 	"path/filepath"
 	"strings"
@@ -302,6 +303,203 @@ func c18ManagementAfterRefusedReload(c *vlib.Ctx) {
 	}
 }
 
+const c18SettingsBase = `ingress { listen 127.0.0.1:0 }
+pull_api { listen 127.0.0.2:0
+ auth token raw:gtok
+ max_batch 5
+ default_lease_ttl 20s
+ max_lease_ttl 40s
+ default_max_wait 0
+ max_wait 1s }
+admin_api { listen 127.0.0.3:0
+ auth token raw:atok }
+defaults { max_body 64
+ max_headers 4096
+ publish_policy { require_actor off } }
+queue_limits { max_depth 40
+ drop_policy reject }
+/b { queue { backend memory }
+ pull { path /pb } }
+`
+
+// c18SettingsFingerprint: probes that observe the settings a process reads at
+// start-up or at reload: pull limits (lease clamp, default lease, batch cap),
+// default body limit, publish policy, queue depth limit, route table.
+func c18SettingsFingerprint(a *l2.App, clock *vlib.VClock) []string {
+	var out []string
+	pp := a.Compiled.PullAPI.Prefix
+	ap := a.Compiled.AdminAPI.Prefix
+	post := func(h http.Handler, target string, body any, tok string) l2.Resp {
+		return l2.Do(h, l2.JSONReq("POST", target, body, tok))
+	}
+	// drain what earlier probes left on /b so that counts below are comparable
+	for i := 0; i < 40; i++ {
+		var r struct {
+			Items []struct {
+				LeaseID string `json:"lease_id"`
+			} `json:"items"`
+		}
+		resp := post(a.Pull, pp+"/pb/dequeue", map[string]any{"batch": 100}, "gtok")
+		if resp.Status != 200 || resp.JSON(&r) != nil || len(r.Items) == 0 {
+			break
+		}
+		for _, it := range r.Items {
+			post(a.Pull, pp+"/pb/ack", map[string]any{"lease_id": it.LeaseID}, "gtok")
+		}
+	}
+	for i := 0; i < 12; i++ {
+		req, _ := l2.NewRequest("POST", "/b", []byte("x"), "")
+		l2.Do(a.Ingress, req)
+	}
+	type deq struct {
+		Items []struct {
+			LeaseID   string    `json:"lease_id"`
+			NextRunAt time.Time `json:"next_run_at"`
+		} `json:"items"`
+	}
+	lease := func(body map[string]any) string {
+		var r deq
+		resp := post(a.Pull, pp+"/pb/dequeue", body, "gtok")
+		if resp.Status != 200 || resp.JSON(&r) != nil {
+			return fmt.Sprintf("status %d", resp.Status)
+		}
+		d := "none"
+		if len(r.Items) > 0 {
+			// the pull handler runs on the wall clock; 5s resolution separates 20s/35s/40s/10m/1h
+			d = time.Until(r.Items[0].NextRunAt).Round(5 * time.Second).String()
+		}
+		for _, it := range r.Items {
+			post(a.Pull, pp+"/pb/nack", map[string]any{"lease_id": it.LeaseID, "delay": "0s"}, "gtok")
+		}
+		return fmt.Sprintf("%d items lease %s", len(r.Items), d)
+	}
+	out = append(out, "dequeue batch=100 lease_ttl=1h => "+lease(map[string]any{"batch": 100, "lease_ttl": "1h"}))
+	out = append(out, "dequeue batch=1 default lease => "+lease(map[string]any{"batch": 1}))
+	for _, n := range []int{60, 70, 200} {
+		req, _ := l2.NewRequest("POST", "/b", make([]byte, n), "")
+		out = append(out, fmt.Sprintf("POST /b %d bytes => %d", n, l2.Do(a.Ingress, req).Status))
+	}
+	for _, rt := range []string{"/e2", "/b"} {
+		req, _ := l2.NewRequest("POST", rt, []byte("y"), "")
+		out = append(out, fmt.Sprintf("POST %s => %d", rt, l2.Do(a.Ingress, req).Status))
+	}
+	pub := l2.JSONReq("POST", ap+"/messages/publish", map[string]any{"items": []map[string]any{{"id": fmt.Sprintf("fp-%d", clock.NowNS()), "route": "/b", "payload_b64": "eA=="}}}, "atok")
+	pub.Header.Set("X-Hookaido-Audit-Reason", "verif")
+	out = append(out, fmt.Sprintf("publish without actor => %d", l2.Do(a.Admin, pub).Status))
+	clock.Advance(time.Millisecond)
+	// depth limit: fill up and count acceptances
+	acc := 0
+	for i := 0; i < 60; i++ {
+		req, _ := l2.NewRequest("POST", "/b", []byte("z"), "")
+		if l2.Do(a.Ingress, req).Status == 202 {
+			acc++
+		}
+	}
+	out = append(out, fmt.Sprintf("60 posts on a queue holding ~15 => %s accepted", cmpClass(acc, 25)))
+	out = append(out, fmt.Sprintf("pull wrong prefix => %d", post(a.Pull, "/altprefix/pb/dequeue", map[string]any{"batch": 1}, "gtok").Status))
+	return out
+}
+
+// c18SettingEdits: one setting of the file changes (every pull limit, defaults,
+// publish policy, queue limits, retention, prefixes, listeners, TLS-free
+// observability) together with a route added, and the process reloads. Whatever
+// the process decides - apply or refuse - must be whole: refused => every probe
+// as before; applied => every probe as on a fresh start of the new file.
+func c18SettingEdits(c *vlib.Ctx) {
+	dir := c.Scratch()
+	rep := func(old, new string) func(string) string {
+		return func(t string) string { return strings.Replace(t, old, new, 1) }
+	}
+	edits := []struct {
+		name string
+		f    func(string) string
+	}{
+		{"pull_max_lease_ttl", rep("max_lease_ttl 40s", "max_lease_ttl 10m")},
+		{"pull_max_lease_ttl_removed", rep(" max_lease_ttl 40s\n", "")},
+		{"pull_default_lease_ttl", rep("default_lease_ttl 20s", "default_lease_ttl 35s")},
+		{"pull_max_batch", rep("max_batch 5", "max_batch 9")},
+		{"pull_max_wait", rep("max_wait 1s", "max_wait 2s")},
+		{"pull_default_max_wait", rep("default_max_wait 0", "default_max_wait 10ms")},
+		{"pull_prefix", rep("pull_api { listen 127.0.0.2:0", "pull_api { listen 127.0.0.2:0\n prefix /altprefix")},
+		{"admin_prefix", rep("admin_api { listen 127.0.0.3:0", "admin_api { listen 127.0.0.3:0\n prefix /altadmin")},
+		{"defaults_max_body", rep("max_body 64", "max_body 128")},
+		{"defaults_max_headers", rep("max_headers 4096", "max_headers 8192")},
+		{"publish_policy_require_actor", rep("require_actor off", "require_actor on")},
+		{"queue_limits_max_depth", rep("max_depth 40", "max_depth 400")},
+		{"queue_limits_drop_policy", rep("drop_policy reject", "drop_policy drop_oldest")},
+		{"queue_retention", func(t string) string { return t + "queue_retention { max_age 1h\n prune_interval 1m }\n" }},
+		{"delivered_retention", func(t string) string { return t + "delivered_retention { max_age 1h }\n" }},
+		{"dlq_retention", func(t string) string { return t + "dlq_retention { max_age 1h\n max_depth 10 }\n" }},
+		{"ingress_listen", rep("ingress { listen 127.0.0.1:0", "ingress { listen 127.0.0.9:0")},
+		{"pull_listen", rep("pull_api { listen 127.0.0.2:0", "pull_api { listen 127.0.0.7:0")},
+		{"pull_token", rep("raw:gtok", "raw:gtok2")},
+		{"route_only", func(t string) string { return t }},
+	}
+	for _, e := range edits {
+		for _, withRoute := range []bool{true, false} {
+			if e.name == "route_only" && !withRoute {
+				continue
+			}
+			next := e.f(c18SettingsBase)
+			if next == c18SettingsBase && e.name != "route_only" {
+				c.Inconclusive("C18 setting edit " + e.name + " did not change the text")
+				continue
+			}
+			if withRoute {
+				next += "/e2 { queue { backend memory }\n pull { path /pe2 } }\n"
+			}
+			clock := vlib.NewVClock(vlib.Epoch)
+			a, err := l2.Start(dir, c18SettingsBase, nil, clock)
+			if err != nil {
+				c.Inconclusive("C18 settings base did not start: " + err.Error())
+				return
+			}
+			before := c18SettingsFingerprint(a, clock)
+			_ = a.WriteConfig(next)
+			ok := a.Reload()
+			after := c18SettingsFingerprint(a, clock)
+			c.Count("evaluations", 1)
+			c.Count("setting_edit_trials", 1)
+			c.Distinct("nontrivial", fmt.Sprintf("setting_edit:%s:route=%v:applied=%v", e.name, withRoute, ok))
+			wit := map[string]any{"edit": e.name, "with_added_route": withRoute, "reload_reported_ok": ok, "before": before, "after": after, "new_file": next}
+			if c.Counter("setting_edit_trials") <= 2 || (ok && c.Counter("setting_edit_applied_samples") < 2) {
+				if ok {
+					c.Count("setting_edit_applied_samples", 1)
+				}
+				c.Sample(map[string]any{"part": "setting_edit", "edit": e.name, "with_added_route": withRoute, "reload_reported_ok": ok, "fingerprint_before": before, "fingerprint_after": after})
+			}
+			if !ok {
+				for i := range before {
+					if before[i] != after[i] {
+						c.Violation(vlib.Signature{"class": "behaviour_changed_by_failed_reload", "failure": "setting:" + e.name, "probe": strings.SplitN(before[i], " => ", 2)[0]},
+							fmt.Sprintf("reload changing %s was refused but a probe changed: %q -> %q", e.name, before[i], after[i]), wit)
+						break
+					}
+				}
+			} else {
+				refClock := vlib.NewVClock(vlib.Epoch)
+				ref, err := l2.Start(dir, next, nil, refClock)
+				if err != nil {
+					c.Violation(vlib.Signature{"class": "invalid_reload_applied", "failure": "setting:" + e.name}, "reload applied a file that does not start: "+err.Error(), wit)
+				} else {
+					_ = c18SettingsFingerprint(ref, refClock) // same history as the reloaded process: one probe run before
+					want := c18SettingsFingerprint(ref, refClock)
+					wit["fresh_start"] = want
+					for i := range want {
+						if want[i] != after[i] {
+							c.Violation(vlib.Signature{"class": "reload_differs_from_fresh_start", "setting": e.name, "probe": strings.SplitN(want[i], " => ", 2)[0]},
+								fmt.Sprintf("reload changing %s reported success, but the probe answers %q where a fresh start of the same file answers %q (part of the file is live, part is not)", e.name, after[i], want[i]), wit)
+							break
+						}
+					}
+					ref.Close()
+				}
+			}
+			a.Close()
+		}
+	}
+}
+
 // c18Mixture: during a successful reload every request is served entirely under
 // the old or entirely under the new configuration.
 func c18Mixture(c *vlib.Ctx) {
@@ -470,6 +668,7 @@ func C18(c *vlib.Ctx) {
 	c.Assume("rate windows are not part of the fingerprint (a reload re-arms the buckets, as the statement of C12 notes)")
 	c18FailedReload(c)
 	c18ManagementAfterRefusedReload(c)
+	c18SettingEdits(c)
 	if c.Counter("management_mutations_applied") == 0 || c.Counter("management_mutations_refused") == 0 {
 		c.Inconclusive("C18 management part observed no applied or no refused mutation")
 	}
